@@ -227,7 +227,7 @@ class WebVTTWriter(BaseWriter):
         )
 
     def _timestamp(self, ts):
-        td = datetime.timedelta(microseconds=ts)
+        td = datetime.timedelta(microseconds=int(ts))
         mm, ss = divmod(td.seconds, 60)
         hh, mm = divmod(mm, 60)
         s = f"{mm:02}:{ss:02}.{td.microseconds // 1000:03}"
